@@ -36,6 +36,14 @@ var c11Exts = []c11Ext{
 		}
 		return !bytes.Contains(d, []byte("\\ "))
 	}, true},
+	{"cjkesc", func(d []byte) bool {
+		for _, b := range d {
+			if b >= 0x80 {
+				return false
+			}
+		}
+		return !bytes.Contains(d, []byte("\\ "))
+	}, true},
 	{"cjkcss3", func(d []byte) bool {
 		for _, b := range d {
 			if b >= 0x80 {
